@@ -305,8 +305,9 @@ def pulse_cases(draw):
     return dict(
         amp=draw(gen.waveform_specs(d, draw(st.sampled_from([0.0, 0.0, -1.0])), 12.0)),
         det=draw(gen.waveform_specs(draw(st.sampled_from([d, d, d + 1])), -20.0, 20.0)),
-        phase=draw(st.sampled_from(gen.PHASES) | gen.fl(-50, 50)),
-        pps=draw(st.sampled_from([0.0, -1.0, 7.0, TWO_PI])),
+        # (tiny negative values: the remainder of a subtraction that should have given 0)
+        phase=draw(st.sampled_from(gen.PHASES) | gen.fl(-50, 50) | st.sampled_from([-1e-20, -1e-17, -4.4e-16])),
+        pps=draw(st.sampled_from([0.0, -1.0, 7.0, TWO_PI, -1e-17])),
         phase_wf=draw(gen.waveform_specs(d, -8.0, 8.0,
                                          kinds=["const", "ramp", "interp", "custom", "blackman"])),
     )
